@@ -499,7 +499,21 @@ class AnchorCoverage:
             return {"error": repr(e)}
 
 # ---------------------------------------------------------------- main flow
+# No property may depend on the machine's local time zone: each run executes the implementation (and the swh / git
+# subprocesses, which inherit the environment) under a zone chosen by seed and property; replay files record it.
+LOCAL_ZONES = ["UTC", "Asia/Kolkata", "America/New_York", "Pacific/Chatham", "Europe/London", "America/St_Johns",
+               "Australia/Lord_Howe", "Pacific/Kiritimati", "Etc/GMT+12"]
+
+
+def set_local_zone(tz):
+    if tz and not (tz == "UTC" or "/" not in tz or os.path.exists(os.path.join("/usr/share/zoneinfo", tz))):
+        tz = "UTC"
+    os.environ["TZ"] = tz or "UTC"
+    time.tzset()
+
+
 def write_replay(pid, seed, n, obj):
+    obj.setdefault("local_tz", os.environ.get("TZ", ""))
     d = os.path.join(VERIF, "replays", pid)
     os.makedirs(d, exist_ok=True)
     path = os.path.join(d, f"{seed}-{n}.json")
@@ -540,6 +554,7 @@ def write_evidence(pid, tier, seed, t0, proof, corr, violations, extra_assumptio
         "disagreements": corr.get("disagreements", 0),
         "anchor_coverage": corr.get("anchor_coverage", {}),
         "extraction_crosscheck": corr.get("extraction_crosscheck", "not implemented for this property"),
+        "local_time_zone_of_this_run": os.environ.get("TZ", ""),
         "known_findings_replayed": corr.get("known", []),
     }
     if "coqchk" in proof:
@@ -655,6 +670,7 @@ def main(argv=None):
     seed = int(os.environ.get("VERIF_SEED", "0") or 0)
     os.environ[GUARD] = "1"
     os.environ.setdefault("PYTHONHASHSEED", "0")
+    set_local_zone(os.environ.get("VERIF_TZ") or LOCAL_ZONES[(seed + int(pid[1:])) % len(LOCAL_ZONES)])
     if REPO not in sys.path:
         sys.path.insert(0, REPO)
     P = importlib.import_module("harness." + pid.lower())
@@ -849,6 +865,8 @@ def replay_main(P, path):
         print("replay names a broken obligation, not an input:", rep.get("obligation"))
         print(rep.get("detail", "")[-2000:])
         return 1
+    if rep.get("local_tz"):
+        set_local_zone(rep["local_tz"])
     ok, msg = build_driver(P)
     if not ok:
         print(msg)
